@@ -117,8 +117,19 @@ theorem mem_repeat (acts : List Act) (a : Act) : ∀ k, a ∈ repeatActs acts k 
     · exact e
     · exact mem_repeat acts a k e
 
-theorem opActs_noArrive (x : Sim) (op : Op) (h1 : ∀ p, op ≠ .arrive p) (h2 : ∀ p, op ≠ .arriveBegin p) :
-    ∀ a ∈ opActs x op, isArrive a = false := by
+theorem mem_loopUntilGate (cfg : Cfg) (hold : Bool) (a : Act) :
+    ∀ (fuel : Nat) (s : St), a ∈ loopUntilGate cfg hold fuel s → isArrive a = false
+  | 0, _, h => by simp [loopUntilGate] at h
+  | fuel + 1, s, h => by
+    unfold loopUntilGate at h
+    split at h <;> try simp at h
+    rcases h with e | e | e
+    · subst e; rfl
+    · exact mem_settle hold s.n a e
+    · exact mem_loopUntilGate cfg hold a fuel _ e
+
+theorem opActs_noArrive (cfg : Cfg) (x : Sim) (op : Op) (h1 : ∀ p, op ≠ .arrive p) (h2 : ∀ p, op ≠ .arriveBegin p) :
+    ∀ a ∈ opActs cfg x op, isArrive a = false := by
   have hs := mem_settle x.hold x.s.n
   intro a ha
   cases op with
@@ -159,6 +170,22 @@ theorem opActs_noArrive (x : Sim) (op : Op) (h1 : ∀ p, op ≠ .arrive p) (h2 :
       rcases List.mem_cons.1 this with e' | e'
       · subst e'; rfl
       · exact hs a e'
+  | tickHold =>
+    simp only [opActs, tickPrefix, List.mem_append, List.mem_cons, List.mem_nil_iff, or_false] at ha
+    rcases ha with (((e | e) | e) | e) | e
+    · subst e; rfl
+    · subst e; rfl
+    · have := mem_repeat _ a _ e
+      rcases List.mem_cons.1 this with e' | e'
+      · subst e'; rfl
+      · exact hs a e'
+    · subst e; rfl
+    · exact mem_loopUntilGate cfg _ a _ _ e
+  | tickRelease =>
+    have := mem_repeat _ a _ ha
+    rcases List.mem_cons.1 this with e' | e'
+    · subst e'; rfl
+    · exact hs a e'
 
 /-- One whole `arrive` macro-operation started with nobody between slot test and registration. -/
 theorem arrive_op (cfg : Cfg) (s : St) (p : Nat) (hA : InvA s) (hc : noneChecked s) :
@@ -198,12 +225,12 @@ theorem seqArr_schedule (cfg : Cfg) (ops : List Op) (x : Sim) (hb : ∀ op ∈ o
     have hop : op ≠ .drain := fun e => hd (by simp [e])
     have hnb : ∀ p, op ≠ .arriveBegin p := fun p e => by have := hb op List.mem_cons_self; rw [e] at this; cases this
     have hA' : InvA (applyOp cfg x op).s := by
-      rw [applyOp_s]; exact invA_run cfg _ _ (opActs_noCancel x op hop) hA
-    have key : SeqArr cfg x.s (opActs x op) ∧ noneChecked (run cfg x.s (opActs x op)) := by
+      rw [applyOp_s]; exact invA_run cfg _ _ (opActs_noCancel cfg x op hop) hA
+    have key : SeqArr cfg x.s (opActs cfg x op) ∧ noneChecked (run cfg x.s (opActs cfg x op)) := by
       by_cases ha : ∃ p, op = .arrive p
       · obtain ⟨p, e⟩ := ha; subst e
         exact arrive_op cfg x.s p hA hc
-      · have hna := opActs_noArrive x op (fun p e => ha ⟨p, e⟩) hnb
+      · have hna := opActs_noArrive cfg x op (fun p e => ha ⟨p, e⟩) hnb
         exact ⟨SeqArr_noArrive cfg _ _ hna, noneChecked_run cfg _ _ hna hc⟩
     refine SeqArr_append cfg _ _ _ key.1 ?_
     rw [← applyOp_s cfg x op]
